@@ -81,20 +81,21 @@ C07(i) ==
 C09(i) ==
   LET e == Ev(i) IN
   IF IsStep(i) /\ ~e.pl THEN
-    LET s == Pre(i)  t == e.s  w == Moved(s, e.a)  u == Config(t)
-        dl == Deliver(s.request_queue, GoalCells, t.request_queue, w.sh) IN
+    LET s == Pre(i)  t == e.s  w == Moved(s, e.a)  u == Config(t) IN
     { <<"C09.step_rel", StepRel(s, e.a, t)>>,
       <<"C09.step_rel.grid", u.ag = w.ag /\ u.sh = w.sh>>,
       <<"C09.step_rel.agents_position", u.apos = w.apos>>,
       <<"C09.step_rel.agents_direction", u.adir = w.adir>>,
       <<"C09.step_rel.agents_is_carrying", u.acar = w.acar>>,
       <<"C09.step_rel.shelves_position", u.spos = w.spos>>,
-      <<"C09.step_rel.request_queue", Len(t.request_queue) = Len(s.request_queue) /\ dl.q = t.request_queue>>,
-      <<"C09.nondet_choice_admissible", dl.ok>>,
+      <<"C09.step_rel.request_queue", QueueFrame(s, e.a, t)>>,
+      <<"C09.nondet_choice_admissible", QueueAdmissible(s, e.a, t)>>,
       <<"C09.step_rel.shelves_is_requested",
            t.shelves.is_requested = [j1 \in 1..NumSh(s) |-> IF (j1 - 1) \in Range(t.request_queue) THEN 1 ELSE 0]>>,
       <<"C09.step_rel.step_count", t.step_count = s.step_count + 1>>,
-      <<"C09.reward_eq", RewardInt(e) = dl.n /\ e.ts.reward.q[1] = dl.n * FX>>,
+      <<"C09.reward_eq", e.ts.reward.q[1] = RewardInt(e) * FX
+                          /\ (IF QueueAdmissible(s, e.a, t) THEN RewardOK(s, e.a, t, RewardInt(e))
+                              ELSE RewardInt(e) \in { o.n : o \in Outcomes(s, e.a) })>>,
       <<"C09.done_eq", (e.ts.type = LAST) = Done(s, e.a)>>,
       <<"C09.discount_eq", e.ts.discount.q[1] = (IF Done(s, e.a) THEN 0 ELSE FX)>> }
   ELSE {}
